@@ -96,6 +96,10 @@ class Interp:
         arr = make_array(start, salt)
         if start.get('jpg'):
             ok_, buf = self.cv2.imencode('.jpg', make_array({**start, 'rw': True}, salt))
+            if start['jpg'] == 'nodims':        # no dimensions given (as the REST filter does with an upload): decoded at once, the blob stays as the cached encoding
+                return self.api('from_jpg', lambda: self.Frame.from_jpg(bytes(buf), {'n': salt}, format=start['fmt']))
+            if start['jpg'] == 'height_only':
+                return self.api('from_jpg', lambda: self.Frame.from_jpg(bytes(buf), {'n': salt}, arr.shape[0], None, start['fmt']))
             return self.Frame.from_jpg(bytes(buf), {'n': salt}, arr.shape[0], arr.shape[1], start['fmt'])
         return self.Frame(arr, {'n': salt}, start['fmt'])
 
@@ -298,7 +302,7 @@ def run_ops(start, ops):
 
 def run_case(case):
     it, v = run_ops(case['start'], case['ops'])
-    cl = sorted(it.classes) + [f'start {case["start"]["fmt"]} {"jpg" if case["start"].get("jpg") else "rw" if case["start"]["rw"] else "ro"}']
+    cl = sorted(it.classes) + [f'start {case["start"]["fmt"]} {("jpg" if case["start"]["jpg"] is True else "jpg " + case["start"]["jpg"]) if case["start"].get("jpg") else "rw" if case["start"]["rw"] else "ro"}']
     if v:
         return bad(f'step {v[2]} {case["ops"][v[2]]}: {v[0]}', v[1], cl)
     return ok(it.nontrivial, cl, {'frames': len(it.frames), 'writes': it.nwrites})
@@ -306,7 +310,7 @@ def run_case(case):
 
 # ---- strategies ---------------------------------------------------------------------------------------------------------
 start_st = st.fixed_dictionaries({'size': st.integers(0, 3), 'fmt': st.sampled_from(FMTS), 'rw': st.booleans(),
-                                  'jpg': st.sampled_from([False, False, False, True]), 'seed': st.integers(0, 9)})
+                                  'jpg': st.sampled_from([False, False, False, True, 'nodims', 'height_only']), 'seed': st.integers(0, 9)})
 idx = st.integers(0, 7)
 op_st = st.one_of(
     st.tuples(st.just('acc'), idx, st.sampled_from(ACCESSORS)),
@@ -326,7 +330,7 @@ case_st = st.fixed_dictionaries({'start': start_st, 'ops': st.lists(op_st, min_s
 ALPHA = [['acc', t, a] for a in ACCESSORS for t in (0, -1)] + [[k, t] for k in ('image', 'jpg', 'pickle') for t in (0, -1)] + \
         [['write', t, 7] for t in (0, -1)] + [['wrap', t, None, True] for t in (0, -1)] + [['wrap', t, 'SWAP', False] for t in (0, -1)]
 EX_STARTS = [{'size': 3, 'fmt': f, 'rw': rw, 'jpg': False, 'seed': 1} for f in FMTS for rw in (True, False)] + \
-            [{'size': 3, 'fmt': f, 'rw': False, 'jpg': True, 'seed': 1} for f in FMTS]
+            [{'size': 3, 'fmt': f, 'rw': False, 'jpg': True, 'seed': 1} for f in FMTS] + [{'size': 3, 'fmt': 'BGR', 'rw': False, 'jpg': 'nodims', 'seed': 1}]
 
 
 def enum_cases(tier):
